@@ -546,7 +546,7 @@ def special_c18(res, tier, seed, workdir, stats):
 
 
 # ---------------------------------------------------------------- C03 / C04 (Miri)
-def run_miriwasm(cases, workdir, tag, shards=4, timeout=3600):
+def run_miriwasm(cases, workdir, tag, shards=4, timeout=3600, release=False):
     """real src/wasm.rs under Miri (wasm32-unknown-unknown, +simd128, no_std/no_main runner)"""
     import concurrent.futures as cf
     hh.ensure_repo_link()
@@ -559,14 +559,14 @@ def run_miriwasm(cases, workdir, tag, shards=4, timeout=3600):
     idx = [list(range(k, n, shards)) for k in range(shards)]
 
     def one(k):
-        tdir = os.path.join(hh.BUILD, f"t-miriwasm-{k}")
+        tdir = os.path.join(hh.BUILD, f"t-miriwasm{'-rel' if release else ''}-{k}")
         os.makedirs(tdir, exist_ok=True)
         p = os.path.join(tdir, "ops.txt")
         hh.write_ops([cases[i] for i in idx[k]], p)
         shutil.copy(p, os.path.join(workdir, f"{tag}.wasm.{k}.ops"))
         env = {"OPS_FILE": p, "CARGO_TARGET_DIR": tdir, "MIRI_NO_STD": "1",
                "RUSTFLAGS": "-Ctarget-feature=+simd128"}
-        return hh.sh(["cargo", "+nightly", "miri", "run", "--offline", "-q", "--target", "wasm32-unknown-unknown"], cwd=cdir, env=env, timeout=timeout)
+        return hh.sh(["cargo", "+nightly", "miri", "run", "--offline", "-q", "--target", "wasm32-unknown-unknown"] + (["--release"] if release else []), cwd=cdir, env=env, timeout=timeout)
 
     outs = [None] * n
     crashed = []
@@ -719,7 +719,14 @@ def special_c03(res, tier, seed, workdir, stats):
     st = check_mod().run_config(res, "C03", tier, seed, "miri-aarch64", None, info0, workdir, gen_override=gen_simd_target("neon"), executor=ex, label="c03")
     st["target_info"] = (holder.get("info") or {}).get("_line")
     stats.append(st)
-    res.cov["interpreter"] = "cargo +nightly miri run --target aarch64-unknown-linux-gnu (real src/aarch64.rs; ushl.v4i32 shim in the runner)"
+    res.cov["interpreter"] = "cargo +nightly miri run --target aarch64-unknown-linux-gnu (real src/aarch64.rs; ushl.v4i32 shim in the runner), dev and release profile"
+
+    # the release profile (debug assertions off): code inside debug_assert!(..) disappears there
+    def ex_rel(cases, tag):
+        outs, crashed, info = hh.run_miri("aarch64", cases, workdir, tag, shards=(hh.NPROC if tier == "thorough" else 6), release=True)
+        return outs, crashed
+    st_r = check_mod().run_config(res, "C03", tier, seed * 131 + 7, "miri-aarch64-release", None, info0, workdir, gen_override=gen_simd_target("neon"), executor=ex_rel, label="c03rel")
+    stats.append(dict(st_r, profile="release"))
 
     def esc():
         st2 = check_mod().run_config(res, "C03", tier, seed * 4099 + 17, "miri-aarch64", None, info0, workdir, gen_override=gen_simd_target("neon"), executor=ex, label="c03esc")
@@ -740,6 +747,15 @@ def special_c04(res, tier, seed, workdir, stats):
     st["target_info"] = (holder.get("info") or {}).get("_line")
     stats.append(st)
     res.cov["interpreter"] = "MIRI_NO_STD=1 cargo +nightly miri run --target wasm32-unknown-unknown -Ctarget-feature=+simd128 (real src/wasm.rs)"
+    def ex_rel(cases, tag):
+        outs, crashed, info = run_miriwasm(cases, workdir, tag, shards=(hh.NPROC if tier == "thorough" else 6), release=True)
+        if crashed and miri_unsupported(crashed):
+            o2, c2, _i2 = run_nodewasm(cases, workdir, tag)
+            if o2 is not None:
+                return o2, c2
+        return outs, crashed
+    st_r = check_mod().run_config(res, "C04", tier, seed * 131 + 7, "miri-wasm32-simd128-release", None, info0, workdir, gen_override=gen_simd_target("wasm"), executor=ex_rel, label="c04rel")
+    stats.append(dict(st_r, profile="release"))
     if holder.get("engine") == "node":
         res.notes.append("Miri does not support an operation the wasm back end now uses; the stream was executed on the real engine (node/V8) instead")
         res.cov["interpreter"] += " - NOT usable for the current source (unsupported operation); the stream ran on node/V8"
